@@ -4,14 +4,14 @@
 DIR=${1:-/repo}
 TD=${2:-$DIR/target}
 cd "$DIR" || exit 2
-rm -f "$TD"/nextest/pb/junit.xml
+rm -f "$TD"/nextest/pb/junit.xml "$DIR"/target/nextest/pb/junit.xml
 CARGO_TARGET_DIR="$TD" cargo nextest run --workspace --no-fail-fast --tool-config-file pb:/w/lib/nextest.toml --profile pb --test-threads 8 --offline > "$TD/../baseline_run.log" 2>&1
-python3 - "$TD" <<'PY'
+python3 - "$TD" "$DIR" <<'PY'
 import json,sys,glob,xml.etree.ElementTree as ET
 td=sys.argv[1]
 b=json.load(open('/root/.vp/BASELINE.json'))
 stable=set(b['stable_pass'])
-f=glob.glob(td+'/nextest/pb/junit.xml')
+f=glob.glob(td+"/nextest/pb/junit.xml")+glob.glob(sys.argv[2]+"/target/nextest/pb/junit.xml")
 if not f: print("no junit"); sys.exit(2)
 passed=set(); failed=set()
 for ts in ET.parse(f[0]).getroot().iter('testsuite'):
